@@ -86,7 +86,7 @@ CHECKS = {
                 jobs=lambda t: J("ondemand", "asan-hsw", ["--prop", "C11"]) + J("ondemand", "prod-hsw", ["--prop", "C11"]) +
                 (J("ondemand", "asan-wsm", ["--prop", "C11"]) + J("ondemand", "prod-wsm", ["--prop", "C11"]) if t == "thorough" else []),
                 rule="every text (valid or not, incl. empty and every truncation) x path: GetOnDemand/ParseOnDemand on an exact-size heap block (ASan) and on a buffer ending on the last mapped byte / starting right after a PROT_NONE page (production build): no fault; success => slice is a sub-range of the input and offset <= len; failure => slice empty. Evaluations count (text,path,placement) calls; non-trivial: text of >= 2 bytes."),
-    "C19": dict(level="exploration", engine="schemaenum",
+    "C19": dict(level="exploration", engine="schemaenum", budget=dict(quick=180, thorough=3000),
                 jobs=lambda t: J("schemaenum", "prod-hsw", []) + J("schemaenum", "asan-hsw", [], fills=[0x06, 0x0c] if t == "quick" else FILLS_T),
                 rule="all pairs (existing document E, valid text T) of duplicate-free values up to a token budget, plus re-spaced texts and repeated application (E,T1,T2): result of ParseSchema read back through the accessors must equal merge(E,T) (E's key set and order at every level where both sides are non-empty objects, T's value elsewhere); no error; ASan-clean for pool and freeing allocators under several heap-fill bytes."),
     "C20": dict(level="exploration", engine="lazyenum",
